@@ -232,7 +232,7 @@ def run(pid, tier, seed):
         "gzip validity/CRC/ISIZE and record framing are decided by the projection (python zlib + own trailer check, GNU gzip -t), "
         "not by TLA+",
         "the process is not stopped cleanly while records of an earlier day are unflushed or were flushed on a later day "
-        "(DESIGN 3.1j); options do not change between restarts; file names do not start with a dot",
+        "(DESIGN 3.1j); options do not change between restarts",
     ])
     return 1 if viol else 0
 
